@@ -70,3 +70,15 @@ package isaac
 //@   trusted
 //@   pure
 //@   ensures r1 == nil ==> snd(base.LoadSuffrageNodesStateValue(st)) == nil
+
+// ---- C08: interface contract of the ballot pool as the broadcaster sees it -------
+// bbset: did the last SetBallot store its ballot (first writer for its stage point)?
+//@ ghost bbset int
+//@ func (BallotPool).SetBallot
+//@   nobody
+//@   modifies ghost:bbset
+//@   ensures r1 == nil ==> bbset == ite(r0, 1, 0)
+//@   ensures r1 != nil ==> bbset == 0
+//@ func (BallotPool).Ballot
+//@   pure
+//@   ensures r2 == nil && r1 ==> r0 != nil
